@@ -51,7 +51,7 @@ def run(ctx):
 
     # ------------------------------------------------------------------ U2 TCP constructor paths
     B = hirq.Body(f, f.body(AC + 'new_tcp'))
-    outs = absx.Interp(f, B, unroll=1).run(root=B.root['body'] if B.root['k'] == 'Closure' else B.root)
+    outs = absx.Interp(f, B, unroll=1, combinators=True).run(root=B.root['body'] if B.root['k'] == 'Closure' else B.root)
     hs = ('call', 'url::Url::host_str', (('param', 'url'),), None)
     pt = ('call', 'url::Url::port', (('param', 'url'),), None)
     sc = ('call', 'url::Url::scheme', (('param', 'url'),), None)
@@ -85,7 +85,8 @@ def run(ctx):
             got = disp
         else:
             # format!("localhost:{}", port): the literal part carries the host
-            ok = disp == [exp_port] and any(b'localhost:' in (x[1] if isinstance(x[1], bytes) else x[1].encode()) for x in lits)
+            ok = (disp == [exp_port] and any(b'localhost:' in (x[1] if isinstance(x[1], bytes) else x[1].encode()) for x in lits)) or \
+                (disp == [exp_host, exp_port] and any(b':' in (x[1] if isinstance(x[1], bytes) else x[1].encode()) for x in lits))
             got = disp
         key = '%s|host=%s|port=%s' % (scheme, 'url' if has_host else 'missing', 'url' if has_port else 'default')
         seen.add(key)
@@ -114,7 +115,7 @@ def run(ctx):
     # dispatcher
     D = hirq.Body(f, f.body(AC + 'from_url_with_settings'))
     ctx.analysed['bodies'].add(D.path)
-    douts = absx.Interp(f, D, unroll=1).run(root=D.root['body'] if D.root['k'] == 'Closure' else D.root)
+    douts = absx.Interp(f, D, unroll=1, combinators=True).run(root=D.root['body'] if D.root['k'] == 'Closure' else D.root)
     seen = set()
     for o in douts:
         pcs = [(strip_site(a), t) for a, t in o.st.pc]
@@ -150,7 +151,7 @@ def run(ctx):
     up = AC + 'new_unix'
     U = hirq.Body(f, f.body(up))
     ctx.analysed['bodies'].add(up)
-    uouts = absx.Interp(f, U, unroll=1).run(root=U.root['body'] if U.root['k'] == 'Closure' else U.root)
+    uouts = absx.Interp(f, U, unroll=1, combinators=True).run(root=U.root['body'] if U.root['k'] == 'Closure' else U.root)
     seen = set()
     for o in uouts:
         pcs = [(strip_site(a), t) for a, t in o.st.pc]
